@@ -25,21 +25,29 @@ Proof.
   - inversion H; subst. split; assumption.
 Qed.
 
+Lemma qsum_nil : qsum [] = 0.
+Proof. reflexivity. Qed.
+
+Lemma qsum_cons x l : qsum (x :: l) == x + qsum l.
+Proof. change (qsum (x :: l)) with (Qred (x + qsum l)). apply Qred_correct. Qed.
+
+Arguments qsum : simpl never.
+
 Lemma pick_pos ws :
   Forall (fun w => 0 <= w) ws -> forall x, 0 <= x -> x < qsum ws ->
   (pick ws x < length ws)%nat /\ 0 < nth (pick ws x) ws 0.
 Proof.
   induction ws as [|w rest IH]; intros Hnn x Hx0 Hx.
-  - simpl in Hx. lra.
+  - rewrite qsum_nil in Hx. lra.
   - destruct rest as [|w' rest'].
-    + simpl in *. split; [lia | lra].
+    + rewrite qsum_cons, qsum_nil in Hx. simpl. split; [lia | lra].
     + change (pick (w :: w' :: rest') x)
         with (if Qle_bool w x then S (pick (w' :: rest') (x - w)) else 0%nat).
       inversion Hnn as [|? ? Hw Hrest]; subst.
       destruct (Qle_bool w x) eqn:E.
       * apply Qle_bool_iff in E.
         assert (Hx' : x - w < qsum (w' :: rest')).
-        { change (qsum (w :: w' :: rest')) with (w + qsum (w' :: rest')) in Hx. lra. }
+        { rewrite qsum_cons in Hx. lra. }
         destruct (IH Hrest (x - w) ltac:(lra) Hx') as [H1 H2].
         split; [simpl; simpl in H1; lia | exact H2].
       * assert (Hlt : x < w).
@@ -110,8 +118,9 @@ Proof.
         change 0 with (snd (0%nat, 0)) in Hp at 2. rewrite map_nth in Hp. lra. }
     destruct (draw_good st Hst) as [Hu Hst'].
     destruct l as [|[x w] [|p r]].
-    + simpl in Htot. lra.
-    + simpl. simpl in Htot. rewrite Nat.eqb_refl. split; [lra | exact Hst].
+    + simpl map in Htot. rewrite qsum_nil in Htot. lra.
+    + simpl. simpl map in Htot. rewrite qsum_cons, qsum_nil in Htot. simpl in Htot.
+      rewrite Nat.eqb_refl. split; [lra | exact Hst].
     + destruct (draw st) as [u st'] eqn:E. simpl in Hu, Hst'. simpl fst. simpl snd.
       split; [apply (Hgen u st' Hu Hst') | exact Hst'].
   - assert (Hn : (0 < Z.of_nat (length l))%Z) by (destruct l; [congruence | simpl length; lia]).
@@ -355,13 +364,15 @@ Require Import Qpower.
 Lemma qsum_ext {A} (f h : A -> Q) l :
   (forall x, In x l -> f x == h x) -> qsum (map f l) == qsum (map h l).
 Proof.
-  induction l as [|a l IH]; intros H; simpl; [reflexivity|].
+  induction l as [|a l IH]; intros H; simpl map; [reflexivity|]. rewrite !qsum_cons.
   rewrite (H a (or_introl eq_refl)), IH; [reflexivity|]. intros x Hx. apply H. right. exact Hx.
 Qed.
 
 Lemma qsum_scale {A} (c : Q) (f : A -> Q) l :
   qsum (map (fun x => c * f x) l) == c * qsum (map f l).
-Proof. induction l as [|a l IH]; simpl; [ring|]. rewrite IH. ring. Qed.
+Proof.
+  induction l as [|a l IH]; simpl map; [rewrite qsum_nil; ring|]. rewrite !qsum_cons, IH. ring.
+Qed.
 
 Lemma Qpower_succ (g : Q) (k : nat) : g ^ Z.of_nat (S k) == g * g ^ Z.of_nat k.
 Proof.
@@ -378,7 +389,7 @@ Proof. reflexivity. Qed.
 
 Lemma csum_0_cons g r rs : csum g 0 (r :: rs) == r + g * csum g 0 rs.
 Proof.
-  unfold csum. simpl length. rewrite <- cons_seq, <- seq_shift. simpl map at 1. simpl qsum.
+  unfold csum. simpl length. rewrite <- cons_seq, <- seq_shift. simpl map at 1. rewrite qsum_cons.
   rewrite map_map.
   rewrite (qsum_ext _ (fun j => g * (disc_entry g 0 j * nth j rs 0))).
   - rewrite qsum_scale. unfold disc_entry at 1. simpl. ring.
@@ -388,7 +399,7 @@ Qed.
 
 Lemma csum_S_cons g i r rs : csum g (S i) (r :: rs) == csum g i rs.
 Proof.
-  unfold csum. simpl length. rewrite <- cons_seq, <- seq_shift. simpl map at 1. simpl qsum.
+  unfold csum. simpl length. rewrite <- cons_seq, <- seq_shift. simpl map at 1. rewrite qsum_cons.
   rewrite map_map. unfold disc_entry at 1. simpl Nat.leb. cbv iota.
   rewrite Qmult_0_l, Qplus_0_l. apply qsum_ext. intros j _. reflexivity.
 Qed.
@@ -714,8 +725,9 @@ Proof.
   intros Hd Hst. destruct d as [l|l|y]; simpl in *.
   - destruct Hd as [Hall Htot].
     destruct l as [|[y w] [|p r]].
-    + simpl in Htot. lra.
-    + simpl. simpl in Htot. inversion Hall as [|? ? [_ [H|H]] _]; subst; simpl in *; [reflexivity | lra].
+    + simpl map in Htot. rewrite qsum_nil in Htot. lra.
+    + simpl. simpl map in Htot. rewrite qsum_cons, qsum_nil in Htot. simpl in Htot.
+      inversion Hall as [|? ? [_ [H|H]] _]; subst; simpl in *; [reflexivity | lra].
     + destruct (draw_good st Hst) as [[Hu0 Hu1] _].
       destruct (draw st) as [u st'] eqn:E. simpl in Hu0, Hu1. simpl fst.
       set (l := (y, w) :: p :: r) in *.
@@ -745,8 +757,8 @@ Proof.
   - destruct Hd as [Hall Htot].
     assert (H : qsum (map (fun xw : nat * Q => if Qeq_bool (snd xw) 0 then 0 else snd xw * f (fst xw)) l)
                 == qsum (map snd l) * f x).
-    { clear Htot. induction Hall as [|[y w] r [Hw Hy] Hr IH]; simpl; [ring|].
-      simpl in Hw, Hy. rewrite IH.
+    { clear Htot. induction Hall as [|[y w] r [Hw Hy] Hr IH]; simpl map; [rewrite !qsum_nil; ring|].
+      simpl in Hw, Hy. rewrite !qsum_cons. simpl fst. simpl snd. rewrite IH.
       destruct (Qeq_bool w 0) eqn:E.
       - apply Qeq_bool_iff in E. rewrite E. ring.
       - destruct Hy as [Hy|Hy]; [subst; ring|].
@@ -754,8 +766,8 @@ Proof.
     rewrite H. field. lra.
   - destruct Hd as [Hne Hall].
     assert (H : qsum (map f l) == qlen l * f x).
-    { unfold qlen. clear Hne. induction Hall as [|y r Hy Hr IH]; simpl length; [simpl; ring|].
-      subst. simpl qsum. rewrite IH. rewrite Nat2Z.inj_succ, <- Z.add_1_r, inject_Z_plus. ring. }
+    { unfold qlen. clear Hne. induction Hall as [|y r Hy Hr IH]; simpl length; simpl map; [rewrite qsum_nil; simpl; ring|].
+      subst. rewrite qsum_cons. rewrite IH. rewrite Nat2Z.inj_succ, <- Z.add_1_r, inject_Z_plus. ring. }
     rewrite H. pose proof (qlen_pos l Hne) as Hp. unfold qlen in *. field. lra.
   - subst. reflexivity.
 Qed.
@@ -772,10 +784,11 @@ Lemma det_run_from cap : forall s st tr fin st',
   hd 0 (calc_returns (t_rewards (tr, fin)) (f_gamma m)) == Vn m pi cap s /\ good_stream st'.
 Proof.
   induction cap as [|c IH]; intros s st tr fin st' Hst Hrun; simpl in Hrun.
-  - inversion Hrun; subst. split; [|exact Hst]. rewrite hd_calc_returns. unfold csum. simpl. ring.
+  - inversion Hrun; subst. split; [|exact Hst]. rewrite hd_calc_returns. unfold csum. simpl.
+    rewrite qsum_cons, qsum_nil. ring.
   - destruct (f_abs m s) eqn:Habs.
     + inversion Hrun; subst. split; [|exact Hst]. simpl Vn. rewrite Habs.
-      rewrite hd_calc_returns. unfold csum. simpl. ring.
+      rewrite hd_calc_returns. unfold csum. simpl. rewrite qsum_cons, qsum_nil. ring.
     + destruct (Hpol s Habs) as [a0 Ha0].
       destruct (sample (pi s) st) as [a st1] eqn:E1.
       pose proof (det_sample _ _ st Ha0 Hst) as Ea. pose proof (det_sample_good _ _ st Ha0 Hst) as Hst1.
@@ -797,8 +810,8 @@ Lemma mean_const (l : list Q) v : l <> [] -> Forall (fun x => x == v) l -> mean 
 Proof.
   intros Hne Hall. unfold mean.
   assert (H : qsum l == qlen l * v).
-  { unfold qlen. clear Hne. induction Hall as [|y r Hy Hr IH]; simpl length; [simpl; ring|].
-    simpl qsum. rewrite IH, Hy. rewrite Nat2Z.inj_succ, <- Z.add_1_r, inject_Z_plus. ring. }
+  { unfold qlen. clear Hne. induction Hall as [|y r Hy Hr IH]; simpl length; [rewrite qsum_nil; simpl; ring|].
+    rewrite qsum_cons. rewrite IH, Hy. rewrite Nat2Z.inj_succ, <- Z.add_1_r, inject_Z_plus. ring. }
   rewrite H. pose proof (qlen_pos l Hne) as Hp. field. lra.
 Qed.
 
@@ -874,16 +887,16 @@ Definition ex_pi : policy := mk_pol [DDict [(0%nat, 1#3); (1%nat, 2#3)]; DUnif [
 Definition ex_st : stream := [1#4; 1#8; 3#8; 7#8; 1#2; 5#8; 1#16; 3#4].
 
 Lemma ex_init : wf_dist (f_init ex_m).
-Proof. simpl. split; [repeat constructor; simpl; lra | simpl; lra]. Qed.
+Proof. simpl. split; [repeat constructor; simpl; lra | vm_compute; reflexivity]. Qed.
 
 Lemma ex_wf : wf_setting ex_m ex_pi.
 Proof.
   split.
   - intros s _. destruct s as [|[|[|s]]]; simpl; auto;
-      try (split; [repeat constructor; simpl; lra | simpl; lra]); try discriminate.
+      try (split; [repeat constructor; simpl; lra | vm_compute; reflexivity]); try discriminate.
     destruct s; exact I.
   - intros s a _ _. destruct s as [|[|[|s]]]; destruct a as [|[|a]]; simpl; auto;
-      try (split; [repeat constructor; simpl; lra | simpl; lra]);
+      try (split; [repeat constructor; simpl; lra | vm_compute; reflexivity]);
       try (destruct a; exact I); try (destruct s; exact I).
 Qed.
 
@@ -923,7 +936,7 @@ Definition ex_dpi : policy := mk_pol [DDict [(1%nat, 0#1); (0%nat, 1#1)]; DUnif 
 Lemma ex_dpol : forall s, f_abs ex_dm s = false -> exists a, is_det (ex_dpi s) a.
 Proof.
   intros s _. exists 0%nat. destruct s as [|[|[|s]]]; simpl.
-  - split; [repeat constructor; simpl; try lra; auto; right; reflexivity | simpl; lra].
+  - split; [repeat constructor; simpl; try lra; auto; right; reflexivity | vm_compute; reflexivity].
   - split; [discriminate | repeat constructor].
   - reflexivity.
   - destruct s; reflexivity.
@@ -932,10 +945,10 @@ Qed.
 Lemma ex_dmdp : forall s a, f_abs ex_dm s = false -> exists ns, is_det (f_next ex_dm s a) ns.
 Proof.
   intros s a _. destruct s as [|[|[|s]]]; destruct a as [|[|a]]; simpl.
-  - exists 1%nat. split; [repeat constructor; simpl; try lra; auto; right; reflexivity | simpl; lra].
+  - exists 1%nat. split; [repeat constructor; simpl; try lra; auto; right; reflexivity | vm_compute; reflexivity].
   - exists 0%nat. reflexivity.
   - exists 0%nat. destruct a; reflexivity.
-  - exists 2%nat. split; [repeat constructor; simpl; try lra; auto | simpl; lra].
+  - exists 2%nat. split; [repeat constructor; simpl; try lra; auto | vm_compute; reflexivity].
   - exists 0%nat. split; [discriminate | repeat constructor].
   - exists 0%nat. destruct a; reflexivity.
   - exists 0%nat. reflexivity.
@@ -947,7 +960,7 @@ Proof.
 Qed.
 
 Lemma ex_dinit : is_det (f_init ex_dm) 0%nat.
-Proof. simpl. split; [repeat constructor; simpl; try lra; auto; right; reflexivity | simpl; lra]. Qed.
+Proof. simpl. split; [repeat constructor; simpl; try lra; auto; right; reflexivity | vm_compute; reflexivity]. Qed.
 
 (* hypotheses of mc_deterministic_exact hold; the value is -1 + (1/2)(5/4) = -3/8, not trivial *)
 Example ex_det : mc_initial_value (mc_evaluate ex_dm ex_dpi 5 3 ex_st) == (-3)#8 /\ Vn ex_dm ex_dpi 5 0 == (-3)#8.
@@ -968,12 +981,12 @@ Lemma ex_pwf : pwf_setting ex_pm ex_ctrl.
 Proof.
   split; [|split].
   - intros ag. destruct ag as [|[|ag]]; simpl; auto;
-      try (split; [repeat constructor; simpl; lra | simpl; lra]). destruct ag; exact I.
+      try (split; [repeat constructor; simpl; lra | vm_compute; reflexivity]). destruct ag; exact I.
   - intros s a _. destruct s as [|[|[|s]]]; destruct a as [|[|a]]; simpl; auto;
-      try (split; [repeat constructor; simpl; lra | simpl; lra]);
+      try (split; [repeat constructor; simpl; lra | vm_compute; reflexivity]);
       try (destruct a; exact I); try (destruct s; exact I).
   - intros a ns. destruct a as [|[|a]]; destruct ns as [|[|[|ns]]]; simpl; auto;
-      try (split; [repeat constructor; simpl; lra | simpl; lra]); try discriminate;
+      try (split; [repeat constructor; simpl; lra | vm_compute; reflexivity]); try discriminate;
       try (destruct ns; exact I); try (destruct a; exact I).
 Qed.
 
